@@ -397,6 +397,47 @@ func c20samples(c *core.Ctx) {
 			c20fail(c, "Compare/Less:int64", fmt.Sprintf("Compare/Less(%d,%d)", a, b))
 			return
 		}
+		// the same pair through other exact types (a fast path may exist for one of them only)
+		{
+			type myInt int
+			ia, ib := int(a), int(b)
+			ua, ub := uint64(a), uint64(b)
+			sa, sb := int32(a), int32(b)
+			pa, pb := uintptr(a), uintptr(b)
+			cmpOf := func(lt, gt bool) int {
+				if lt {
+					return -1
+				}
+				if gt {
+					return 1
+				}
+				return 0
+			}
+			if typ.Compare(ia, ib) != cmpOf(ia < ib, ia > ib) || typ.Less(ia, ib) != (ia < ib) || typ.Compare(myInt(ia), myInt(ib)) != cmpOf(ia < ib, ia > ib) ||
+				typ.Compare(ua, ub) != cmpOf(ua < ub, ua > ub) || typ.Less(ua, ub) != (ua < ub) || typ.Compare(uint(ua), uint(ub)) != cmpOf(ua < ub, ua > ub) ||
+				typ.Compare(sa, sb) != cmpOf(sa < sb, sa > sb) || typ.Compare(pa, pb) != cmpOf(pa < pb, pa > pb) {
+				c20fail(c, "Compare/Less:int/uint/int32/uintptr", fmt.Sprintf("Compare/Less of the 64-bit patterns (%d,%d) through int, a named int, uint64, uint, int32 or uintptr disagrees with the built-in operators", a, b))
+				return
+			}
+			mnI, mxI := ia, ia
+			if ib < mnI {
+				mnI = ib
+			}
+			if ib > mxI {
+				mxI = ib
+			}
+			mnU, mxU := ua, ua
+			if ub < mnU {
+				mnU = ub
+			}
+			if ub > mxU {
+				mxU = ub
+			}
+			if typ.Min(ia, ib) != mnI || typ.Max(ia, ib) != mxI || typ.Min(ua, ub) != mnU || typ.Max(ua, ub) != mxU || typ.Clamp(ia, mnI, mxI) != ia || typ.Clamp(ua, mnU, mxU) != ua {
+				c20fail(c, "Min/Max/Clamp:int/uint64", fmt.Sprintf("Min/Max/Clamp of the 64-bit patterns (%d,%d) through int or uint64 are wrong", a, b))
+				return
+			}
+		}
 		if typ.Min(a, b, d) != minI(minI(a, b), d) || typ.Max(a, b, d) != maxI(maxI(a, b), d) || typ.Min(a) != a || typ.Max(b) != b {
 			c20fail(c, "Min/Max:int64", fmt.Sprintf("Min/Max(%d,%d,%d)", a, b, d))
 			return
@@ -715,6 +756,17 @@ func c20samples(c *core.Ctx) {
 			return
 		}
 		*p1++
+		// DerefZero is about nil-ness only: a non-nil pointer is dereferenced even when the
+		// pointed-to type has an IsZero method that says "zero"
+		{
+			zt := time.Time{}.In(time.FixedZone("x", 3600))
+			wz := weirdZero{5}
+			ze := zeroer{V: 0, Mark: 9}
+			if g := typ.DerefZero(&zt); g.Location() != zt.Location() || typ.DerefZero(&wz) != wz || typ.DerefZero(&ze) != ze {
+				c20fail(c, "DerefZero:non-nil-pointer-to-IsZero-type", "DerefZero of a non-nil pointer must return the pointed-to value, whatever an IsZero method of that type says")
+				return
+			}
+		}
 		if *p2 != x || typ.DerefZero(p1) != x+1 || typ.DerefZero[*int](nil) != 0 || typ.DerefZero((*string)(nil)) != "" {
 			c20fail(c, "DerefZero", "DerefZero wrong")
 			return
